@@ -4,9 +4,11 @@
 // binary) hands the bytes of a file to the parser in exactly the planned pieces; File(buffer, size, "<format>.gz") selects it.
 // Route B (-DC06_REAL, built with -DOSMIUM_VERIF_INPUT_BUFFER_SIZE=<small>): the real fd-based plain, gzip and bzip2 decompressors
 // deliver pieces of at most that size; the reference is the same bytes parsed from memory in one piece.
+// Route C (-DC06_PIPE): the bytes arrive on stdin through a pipe whose writer hands over exactly the planned pieces (short reads, as with
+// pipes, FIFOs and sockets); plain, gzip and bzip2 decompressors and the PBF parser's own reads from the descriptor.
 #include "enc.hpp"
 
-#ifdef C06_REAL
+#if defined(C06_REAL) || defined(C06_PIPE)
 #include <osmium/io/bzip2_compression.hpp>
 #include <osmium/io/gzip_compression.hpp>
 #include <bzlib.h>
@@ -20,6 +22,9 @@
 
 #include <typeinfo>
 #include <unistd.h>
+#ifdef C06_PIPE
+#include "pipefeed.hpp"
+#endif
 
 using model::Obj;
 using vp::Src;
@@ -28,7 +33,7 @@ using vp::Src;
 static std::vector<size_t> g_plan;  // piece sizes; after the plan is used up the rest comes in one piece
 static std::atomic<size_t> g_pieces_delivered{0};
 
-#ifndef C06_REAL
+#if !defined(C06_REAL) && !defined(C06_PIPE)
 class ChunkDecompressor final : public osmium::io::Decompressor {
     const char* m_data;
     size_t m_size;
@@ -289,7 +294,7 @@ static std::string plan_text(const std::vector<size_t>& p) {
     return t + " rest";
 }
 
-#ifndef C06_REAL
+#if !defined(C06_REAL) && !defined(C06_PIPE)
 static void prop(Src& s) {
     const int fmt = static_cast<int>(s.draw(4));
     std::string what;
@@ -372,7 +377,7 @@ static void prop(Src& s) {
     if (nontrivial_plans > 0) vp::nontrivial(vp::hash_str(bytes));
 }
 #else
-// ---------------------------------------------------------------- route B: real decompressors with a tiny input buffer
+// ---------------------------------------------------------------- routes B and C: real decompressors (tiny input buffer / pipe)
 static std::string gz(const std::string& in) {
     z_stream zs{};
     deflateInit2(&zs, 6, Z_DEFLATED, 15 + 16, 8, Z_DEFAULT_STRATEGY);
@@ -393,6 +398,87 @@ static std::string bz(const std::string& in) {
     out.resize(n);
     return out;
 }
+#ifdef C06_PIPE
+static void prop(Src& s) {
+    const int fmt = static_cast<int>(s.draw(4));
+    std::string what;
+    const std::string bytes = make_file(s, fmt, what);
+    if (vp::want_desc()) vp::describe(what);
+    const Result mem = read_all(osmium::io::File{bytes.data(), bytes.size(), FMT[fmt]});
+    const Result& ref = mem;
+    Result pbf_one_piece;
+    size_t runs = 0, short_reads = 0;
+    // (no ".pbf.gz": the Reader does not decompress PBF files, see route B)
+    const int ncomp = fmt == 0 ? 1 : 3;
+    for (int comp = 0; comp < ncomp; ++comp) {
+        if (comp != 0 && bytes.empty()) continue;
+        const std::string filebytes = comp == 0 ? bytes : comp == 1 ? gz(bytes) : bz(bytes);
+        const size_t N = filebytes.size();
+        const std::string fs = std::string{FMT[fmt]} + (comp == 1 ? ".gz" : comp == 2 ? ".bz2" : "");
+        std::vector<std::vector<size_t>> plans;
+        plans.push_back({});  // everything in one write
+        if (N > 1) {
+            plans.push_back({1 + s.draw(N - 1)});
+            plans.push_back({1 + s.draw(N - 1), 1 + s.draw(s.boolean() ? 3 : N)});
+            plans.push_back({N - 1});  // the last byte alone
+        }
+        for (size_t sz : {1, 2, 7, 64, 4095, 4096}) {
+            if (N / sz > 600 || sz >= N) continue;
+            if (s.chance(1, 2)) plans.push_back(std::vector<size_t>(N / sz + 1, sz));
+        }
+        for (size_t k = 0; k < 3; ++k) {
+            std::vector<size_t> plan;
+            size_t maxp = 1 + s.draw(s.boolean() ? 8 : 5000);
+            for (size_t used = 0; used < N && plan.size() < 600;) {
+                size_t n = 1 + s.draw(maxp);
+                plan.push_back(n);
+                used += n;
+            }
+            plans.push_back(plan);
+        }
+        for (const auto& plan : plans) {
+            Result r;
+            size_t pieces = 0;
+            {
+                pipefeed::Feed feed{filebytes, plan};
+                ::dup2(feed.read_fd(), 0);
+                ::close(feed.read_fd());
+                r = read_all(osmium::io::File{"-", fs});
+                int devnull = ::open("/dev/null", O_RDONLY);  // whatever the Reader did with descriptor 0: the pipe's read end is closed now
+                if (devnull != 0) {
+                    ::dup2(devnull, 0);
+                    ::close(devnull);
+                }
+                feed.join();
+                pieces = feed.pieces();
+            }
+            ++runs;
+            if (pieces > 1) ++short_reads;
+            // The PBF parser reads the descriptor itself and words its errors differently from the in-memory route ("unexpected EOF" vs
+            // "truncated data"): for PBF the reference for the error text is the same route with everything in one write.
+            if (fmt == 0 && plan.empty()) {
+                pbf_one_piece = r;
+                VP_CHECK(r.objs == ref.objs && r.generator == ref.generator && r.boxes == ref.boxes && r.threw == ref.threw && r.header_threw == ref.header_threw, "chunking-changes-result",
+                         what << ": parsed from memory [" << ref.brief() << "], read from a pipe in one piece [" << r.brief() << "]");
+                continue;
+            }
+            const Result& ref = fmt == 0 ? pbf_one_piece : mem;
+            if (!(r == ref)) {
+                size_t i = 0;
+                while (i < r.objs.size() && i < ref.objs.size() && r.objs[i] == ref.objs[i]) ++i;
+                std::string diff = i < r.objs.size() && i < ref.objs.size() ? " first differing object #" + std::to_string(i) + ": " + model::diff(ref.objs[i], r.objs[i]) : "";
+                vp::fail("chunking-changes-result", what + ": parsed from memory in one piece [" + ref.brief() + "], read from a pipe (stdin, " + (comp == 0 ? "not compressed" : comp == 1 ? "gzip" : "bzip2") + ", " + std::to_string(N) +
+                                                        " bytes) that delivers " + plan_text(plan) + " [" + r.brief() + "]" + diff);
+            }
+        }
+    }
+    vp::count("reader_runs", runs);
+    vp::count("runs_with_short_reads", short_reads);
+    vp::count(std::string{"fmt_"} + FMT[fmt]);
+    vp::count(ref.threw || ref.header_threw ? "file_with_error" : "file_without_error");
+    if (short_reads > 0 && !bytes.empty()) vp::nontrivial(vp::hash_str(bytes));
+}
+#else
 static void prop(Src& s) {
     // PBF is not part of this route: a PBF file on disk is always read by the parser itself (Reader::make_decompressor installs a dummy
     // decompressor for it whatever the file name says), so there is no decompressor that could chunk it. Route A covers PBF.
@@ -421,9 +507,10 @@ static void prop(Src& s) {
     if (bytes.size() > static_cast<size_t>(osmium::io::Decompressor::input_buffer_size)) vp::nontrivial(vp::hash_str(bytes));
 }
 #endif
+#endif
 
 VP_MAIN(prop, "files from the harness's own PBF/o5m/XML/OPL encoders (0..8 objects, all encoding choices of C02), 4/9 of them damaged by truncation or byte overwrites so that the reported error is "
               "part of the result; x chunk plans handed to the parser by a harness decompressor: every single cut (all for files <= 300 bytes, 120 sampled otherwise), every pair of cuts for "
               "files <= 24 bytes (40 sampled otherwise), fixed piece sizes 1,2,3,5,7,11,64,4095, 10 random plans; second route: the real plain/gzip/bzip2 file decompressors compiled with a "
-              "7-byte and a 1-byte input buffer. Oracle: (header or header error, objects delivered, exception type and message) identical to the one-piece result. non-trivial = at least one "
+              "7-byte and a 1-byte input buffer; third route: the bytes (plain, gzip, bzip2; PBF plain) arrive on stdin through a pipe in planned pieces (short reads). Oracle: (header or header error, objects delivered, exception type and message) identical to the one-piece result. non-trivial = at least one "
               "cut inside a unit (not after an OPL line end, an XML '>', a PBF length prefix/blob header/blob, an o5m dataset); distinct by hash of the file")
